@@ -131,6 +131,8 @@ inline int signed_add(int a, int b) { return a + b; }
 inline double unchecked_find(const std::map<E, double>& m, E e) { return m.find(e)->second; }
 inline double uninitialised_read(bool b) { double x; if (b) { x = 1.0; } return x; }
 inline double throwing(const std::string& s) { return std::stod(s); }
+inline double vector_element(std::vector<double>& v) { return v[0]; }
+inline double array_element(std::array<double, 3>& a, std::size_t i) { return a[i]; }
 }  // namespace phq_verif_control
 '''
 
@@ -283,11 +285,16 @@ def gen_driver(inv, T, tier):
               % (k, ty, un, un, ty, un, un))
             if "vector" in sh:
                 continue
-            k += 1
-            if "array" in sh:
-                w("void drv_c%d() { (void)ConvertStatically<%s, %s::%s, %s::%s, 5, %s>(mk<const %s&>()); }" % (k, un, un, last, un, first, T, ty))
-            else:
-                w("void drv_c%d() { (void)ConvertStatically<%s, %s::%s, %s::%s, %s>(mk<const %s&>()); }" % (k, un, un, last, un, first, T, ty))
+            names = [x["n"] for x in e["enumerators"]]
+            static_pairs = [(last, first)]
+            if len(names) >= 3:
+                static_pairs.append((names[1], last))     # two non-standard units (for Temperature: two offset units)
+            for (ua, ub) in static_pairs:
+                k += 1
+                if "array" in sh:
+                    w("void drv_c%d() { (void)ConvertStatically<%s, %s::%s, %s::%s, 5, %s>(mk<const %s&>()); }" % (k, un, un, ua, un, ub, T, ty))
+                else:
+                    w("void drv_c%d() { (void)ConvertStatically<%s, %s::%s, %s::%s, %s>(mk<const %s&>()); }" % (k, un, un, ua, un, ub, T, ty))
     if T == "double":
         for un in sorted(enums):
             if un.startswith("PhQ::Unit::"):
@@ -323,11 +330,15 @@ def build_facts(tier="quick", verbose=False):
     try:
         done = os.path.join(work, "DONE")
         if os.path.exists(done):
+            try:
+                os.utime(work)
+            except OSError:
+                pass
             return work
-        # prune old work dirs (disk is limited)
-        for d in glob.glob(os.path.join(CACHE, "w-*")):
-            if d != work:
-                subprocess.run(["rm", "-rf", d])
+        # prune old work dirs (disk is limited): keep the five most recently used besides this one
+        olds = sorted((d for d in glob.glob(os.path.join(CACHE, "w-*")) if d != work), key=os.path.getmtime, reverse=True)
+        for d in olds[5:]:
+            subprocess.run(["rm", "-rf", d])
         os.makedirs(work, exist_ok=True)
         t0 = time.time()
         overlay, shimmed = make_overlay(work)
